@@ -19,8 +19,11 @@ PROPS = {
             "c03_repair_then_append": "the file truncated to finalLen, with any batch b' appended, reads back as bs ++ [b']",
         },
         engines=[dict(bin="journal", args=["--mode", "c03"], cases_quick=48, cases_thorough=240,
-                      profiles=["release"], profiles_thorough=["release", "dev"])],
-        rule="case = random program (single writes, removes, weak removes, clears, multi-keyspace batches, "
+                      profiles=["release"], profiles_thorough=["release", "dev"]),
+                 dict(bin="dbeng", args=["--mode", "c03"], cases_quick=320, cases_thorough=6000, profiles=["release"])],
+        rule="dbeng: crash images of programs with multi-keyspace batches where the keyspaces are flushed at different times "
+             "(a batch must be recovered as a whole or not at all: the image's content is compared with 'every acknowledged "
+             "operation', each entirely). journal: case = random program (single writes, removes, weak removes, clears, multi-keyspace batches, "
              "single-writer transactions; values on both sides of the 4096 compression threshold; lz4/none) run on "
              "the real crate; its journal is compared bit-for-bit with the model writer, then cut at every offset of "
              "the last batch (byte budget) x zero paddings {0, small, 64 MiB} and read by the real reader (hook), the "
